@@ -6,6 +6,7 @@ import (
 	"errors"
 	"fmt"
 	"math"
+	"strings"
 	"time"
 
 	"0chain.net/core/config"
@@ -695,7 +696,9 @@ func (c *Chain) transferAmount(sctx bcstate.StateContextI, fromClient, toClient 
 	if amount == 0 {
 		return nil, nil
 	}
-	if fromClient == toClient {
+	// ids are hex strings and the state trie addresses 'A'-'F' like 'a'-'f': two spellings of one id
+	// are the same account
+	if strings.EqualFold(fromClient, toClient) {
 		return nil, common.InvalidRequest("from and to client should be different for balance transfer")
 	}
 
